@@ -47,7 +47,7 @@ var valueFamilies = []valueFamily{
 	{name: "text-shadow", props: []string{"text-shadow"}, alpha: []string{"none", "0", "0px", "1px", "2px", "red", "#ff0000", "rgb(0,0,0)", "currentcolor", ",", "black"}, qLen: 4, tLen: 5},
 	{name: "text-decoration", props: []string{"text-decoration"}, alpha: []string{"none", "underline", "overline", "line-through", "solid", "wavy", "dotted", "currentcolor", "red", "#ff0000", "transparent", "blink", "initial", "black", "Solid"}, qLen: 3, tLen: 4},
 	{name: "text-emphasis", props: []string{"text-emphasis"}, alpha: []string{"none", "filled", "open", "dot", "circle", "sesame", "\"x\"", "currentcolor", "red", "#f00", "transparent", "black"}, qLen: 3, tLen: 4},
-	{name: "background-position", props: []string{"background-position"}, alpha: []string{"left", "right", "top", "bottom", "center", "0", "10%", "20%", "50%", "100%", "5px", "0px", "0%", ",", "LEFT"}, qLen: 4, tLen: 5},
+	{name: "background-position", props: []string{"background-position"}, alpha: []string{"left", "right", "top", "bottom", "center", "0", "10%", "20%", "50%", "100%", "5px", "0px", "0%", ",", "LEFT", "10.5%", "99.9%"}, qLen: 4, tLen: 5},
 	{name: "background-size", props: []string{"background-size"}, alpha: []string{"auto", "cover", "contain", "0", "10px", "50%", "100%", "0px", ",", "Auto"}, qLen: 4, tLen: 5},
 	{name: "background-repeat", props: []string{"background-repeat"}, alpha: []string{"repeat", "no-repeat", "space", "round", "repeat-x", "repeat-y", ",", "Repeat"}, qLen: 4, tLen: 5},
 	{name: "background", props: []string{"background"}, alpha: bgAlpha, qLen: 3, tLen: 4},
